@@ -95,7 +95,7 @@ def enumerate_cases(tier, shard=0, nshards=1):
                 yield {'model': _chain_model(nlen), 'nev': 2,
                        'schedule': sched}
     n = 3000 if tier == 'quick' else 60000
-    for k in range(5):
+    for k in range(5 + len(ERR_SOURCES)):
         i += 1
         if i % nshards == shard:
             yield {'memory': k, 'n': n}
@@ -288,11 +288,30 @@ def judge(case):
     return res
 
 
+# error values by the MECHANISM that produces them (raised directly, raised
+# while another exception is being handled, returned, literal, from text
+# conversion, from a date function ...), each inside a range under several
+# consumers and as a scalar operand
+ERR_SOURCES = ['=0^-1', '=1/0', '=SQRT(-1)', '="a"+1', '=DATE(-5,1,1)',
+               '=LN(0)', '=MOD(1,0)', '=NA()', '=#REF!', '=VLOOKUP(9,A1:A1,5)',
+               '=DEC2BIN(9999)', '=FIND("z","abc")', '=MATCH(9,A1:A1,0)']
+
+
 def _memory(case, res):
     import tracemalloc
     xl = lib.lib()
     k, n = case['memory'], case['n']
-    if k >= 3:
+    if k >= 5:
+        src = ERR_SOURCES[k - 5]
+        d = {'Sheet1!A1': 5, 'Sheet1!B1': src, 'Sheet1!B2': 3,
+             'Sheet1!C1': '=SUM(B1:B2)', 'Sheet1!C2': '=MAX(B1:B2,A1)',
+             'Sheet1!C3': '=COUNT(B1:B2)', 'Sheet1!C4': '=B1+1',
+             'Sheet1!C5': '=IF(ISERROR(B1),1,2)', 'Sheet1!C6': '=B1&"x"'}
+        m = lib.compile_dict(d)
+        cells = ['Sheet1!C%d' % i for i in range(1, 7)]
+        evs = [xl.Evaluator(m)]
+        n = max(600, n // 3)
+    elif k >= 3:
         # error VALUES (literal, computed, NA()) that are reached and flow
         # into list-typed arguments and ranges, again and again
         d = {'Sheet1!A1': 5,
@@ -336,7 +355,8 @@ def _memory(case, res):
     res.nontrivial = True
     res.labels = ('memory',)
     if per_call > 64:
-        res.fail('memory-accumulates', '< 64 bytes per evaluate() call',
+        res.fail('memory-accumulates' + (
+            ':error-value' if k >= 3 else ''), '< 64 bytes per evaluate() call',
                  {'bytes_per_call': round(per_call, 1), 'calls': calls,
                   'growth_bytes': m2 - m1})
     return res
